@@ -63,7 +63,7 @@ def gen_system(rng, cat, n, thorough):
     elif cat == "tiny-row":
         # a necessary constraint written with tiny coefficients: its raw slack is far below 1e-8 although it cuts the box in half
         k = rng.randrange(n)
-        s_ = rng.choice([FR(1, 10**9), FR(1, 2**33), FR(1, 10**11)])
+        s_ = rng.choice([FR(1, 10**9), FR(1, 2**33), FR(1, 10**11), FR(1, 10**17), FR(1, 2**70), FR(1, 10**30)])
         A, b = list(box), [FR(2)] * (2 * n)
         A.append([s_ if j == k else FR(0) for j in range(n)])
         b.append(s_ * rng.choice([FR(1), FR(0), FR(-1)]))
@@ -163,7 +163,8 @@ def referee(q, A, b, c, ans, n, label, out):
         winf = max([abs(v) for v in w] + [FR(0)])
         for rw in rows:
             # the backend's feasibility tolerance acts on the row scaled to unit norm: 1e-8 relative to the row's size
-            slack = MEMB * (max(FR(1), l1(rw.a)) + abs(rw.b) + l1(rw.a) * winf)
+            # (also for rows far below 1: a vertex that ignores the row 1e-17 x <= 1e-17 is outside, whatever its raw excess)
+            slack = MEMB * (l1(rw.a) + abs(rw.b) + l1(rw.a) * winf)
             if dot(rw.a, w) - rw.b > slack:
                 out["viol"].append(("witness-outside", "%s: returned point %s violates row %s <= %s by %.3g" % (
                     label, [float(v) for v in w], [float(v) for v in rw.a], float(rw.b), float(dot(rw.a, w) - rw.b))))
@@ -304,7 +305,7 @@ def main():
                        "the real pruning runs pose on seeded histories (hook call log); non-trivial = different answers within a case")
     chk.cov["explanation"] = ("z3 referees every answer of the real LP layer over all points: infeasible => the system tightened by "
                               "tau=1e-6 has no point with |x_i| <= 2^26; feasible => the system relaxed by tau is non-empty; optimal(w) => w "
-                              "satisfies every row within 1e-8 (relative to max(1,|a|)+|b|+|a||w|) and no feasible point with |x_i| <= 2^26 "
+                              "satisfies every row within 1e-8 (relative to |a|+|b|+|a||w|) and no feasible point with |x_i| <= 2^26 "
                               "has an objective smaller by more than 1e-6(1+|value|); unbounded => a feasible point and an improving recession direction exist; the "
                               "Chebyshev program has the documented rows/objective and its answer passes the same referee")
     chk.cov["bounds"] = {"dims": 3 if chk.tier == "quick" else 4, "rows": "<= 11"}
